@@ -39,7 +39,10 @@ func c11ProcessDeals(c *Ctx) {
 	if fn == nil {
 		return
 	}
-	pds := ssax.Calls(fn, false, func(ci ssa.CallInstruction) bool { o := ssax.CalleeObj(ci); return o != nil && o.Name() == "ProcessDeal" })
+	pds := ssax.Calls(fn, false, func(ci ssa.CallInstruction) bool {
+		o := ssax.CalleeObj(ci)
+		return o != nil && o.Name() == "ProcessDeal"
+	})
 	pcs := ssax.CallsTo(fn, load.Module+"/dkg.(DKG).processDealCommits")
 	var apps []ssa.Instruction
 	ssax.Instrs(fn, func(in ssa.Instruction) {
@@ -188,7 +191,10 @@ func c11Handler(c *Ctx) {
 	}
 	decs := ssax.CallsTo(fn, load.Module+"/airgapped.(Machine).decryptDataFromParticipant")
 	stores := ssax.Calls(fn, false, func(ci ssa.CallInstruction) bool { o := ssax.CalleeObj(ci); return o != nil && o.Name() == "StoreDeal" })
-	procs := ssax.Calls(fn, false, func(ci ssa.CallInstruction) bool { o := ssax.CalleeObj(ci); return o != nil && o.Name() == "ProcessDeals" })
+	procs := ssax.Calls(fn, false, func(ci ssa.CallInstruction) bool {
+		o := ssax.CalleeObj(ci)
+		return o != nil && o.Name() == "ProcessDeals"
+	})
 	if len(decs) != 1 || len(stores) != 1 || len(procs) != 1 {
 		r.Unknown("C11/R2", "airgapped.handleStateDkgResponsesAwaitConfirmations:shape", "decrypt, StoreDeal, ProcessDeals", c.Pos(fn.Pos()), sprintf("decrypt=%d StoreDeal=%d ProcessDeals=%d", len(decs), len(stores), len(procs)))
 		return
@@ -225,7 +231,7 @@ func c11Handler(c *Ctx) {
 	// only own entry skipped
 	var iter ssa.Instruction
 	ssax.Instrs(fn, func(in ssa.Instruction) {
-		if ia, ok := in.(*ssa.IndexAddr); ok && strings.HasSuffix(ssax.Path(ia.X), "payload") {
+		if ia, ok := in.(*ssa.IndexAddr); ok && strings.HasSuffix(ssax.Path(ia.X), "json(o.Payload)") {
 			iter = in
 		}
 	})
@@ -440,8 +446,14 @@ func c11SaveShare(c *Ctx, rule string) {
 	fn := c.Fn(rule, "airgapped", "Machine", "handleStateDkgMasterKeyAwaitConfirmations")
 	if fn != nil {
 		saves := ssax.CallsTo(fn, load.Module+"/airgapped.(Machine).saveBLSKeyring")
-		prs := ssax.Calls(fn, false, func(ci ssa.CallInstruction) bool { o := ssax.CalleeObj(ci); return o != nil && o.Name() == "ProcessResponses" })
-		gks := ssax.Calls(fn, false, func(ci ssa.CallInstruction) bool { o := ssax.CalleeObj(ci); return o != nil && o.Name() == "GetBLSKeyring" })
+		prs := ssax.Calls(fn, false, func(ci ssa.CallInstruction) bool {
+			o := ssax.CalleeObj(ci)
+			return o != nil && o.Name() == "ProcessResponses"
+		})
+		gks := ssax.Calls(fn, false, func(ci ssa.CallInstruction) bool {
+			o := ssax.CalleeObj(ci)
+			return o != nil && o.Name() == "GetBLSKeyring"
+		})
 		if len(saves) != 1 || len(prs) != 1 || len(gks) != 1 {
 			r.Unknown(rule, "airgapped.master-key-handler:shape", "ProcessResponses, GetBLSKeyring, saveBLSKeyring", c.Pos(fn.Pos()), sprintf("save=%d ProcessResponses=%d GetBLSKeyring=%d", len(saves), len(prs), len(gks)))
 		} else {
